@@ -72,9 +72,78 @@ func (c conn) SetReadDeadline(t time.Time) error {
 
 func (c conn) SetWriteDeadline(t time.Time) error {
 	if c.st != nil {
+		c.st.enterDeadlineCall(t)
+		defer c.st.leaveDeadlineCall()
 		c.st.noteDeadline("W", t)
 	}
 	return c.Conn.SetWriteDeadline(t)
+}
+
+// enterDeadlineCall: with hold set, a call that moves the write deadline into the past is kept
+// from taking effect (the calling goroutine is not scheduled) until somebody clears the write
+// deadline, or until 10 ms after a Write of the current operation has completed, or for 500 ms.  Code that orders its own
+// "past" and "clear" calls (one goroutine, or a join) is merely slowed down; a clear that does
+// not wait for a "past" call still in flight is overtaken by it.  (A clear is itself delayed by
+// 3 ms so that a goroutine started to make the "past" call has reached it.)
+func (cs *connState) enterDeadlineCall(t time.Time) {
+	cs.mu.Lock()
+	cs.inflight++
+	if cs.hold && t.IsZero() {
+		// a clear is not scheduled at once either: a goroutine that was started to move the
+		// deadline gets the time to reach its call
+		cs.mu.Unlock()
+		time.Sleep(3 * time.Millisecond)
+		cs.mu.Lock()
+	}
+	hold := cs.hold && !t.IsZero() && time.Until(t) <= 0
+	z0, w0 := cs.nZero, cs.opBase
+	if t.IsZero() {
+		cs.nZero++
+	}
+	cs.mu.Unlock()
+	if !hold {
+		return
+	}
+	start := time.Now()
+	var wrote time.Time
+	for time.Since(start) < 500*time.Millisecond {
+		cs.mu.Lock()
+		z, w := cs.nZero, cs.nDone
+		cs.mu.Unlock()
+		if z > z0 {
+			return
+		}
+		if w > w0 && wrote.IsZero() {
+			wrote = time.Now()
+		}
+		if !wrote.IsZero() && time.Since(wrote) > 10*time.Millisecond {
+			return
+		}
+		time.Sleep(500 * time.Microsecond)
+	}
+}
+
+func (cs *connState) leaveDeadlineCall() {
+	cs.mu.Lock()
+	cs.inflight--
+	cs.mu.Unlock()
+}
+
+// waitQuiet waits until no deadline call is in flight.
+func (cs *connState) waitQuiet(d time.Duration) bool {
+	end := time.Now().Add(d)
+	for {
+		cs.mu.Lock()
+		n := cs.inflight
+		cs.mu.Unlock()
+		if n == 0 {
+			return true
+		}
+		if time.Now().After(end) {
+			return false
+		}
+		time.Sleep(500 * time.Microsecond)
+	}
 }
 
 func (cs *connState) deadlineCalls() []dlCall {
